@@ -9,6 +9,7 @@ import (
 	"path/filepath"
 	"sort"
 	"strings"
+	"syscall"
 	"time"
 )
 
@@ -69,7 +70,35 @@ func RacePass(id, pkg string, args ...string) RaceResult {
 	var stdout, stderr bytes.Buffer
 	run.Stdout = &stdout
 	run.Stderr = &stderr
-	if err := run.Run(); err != nil {
+	// hang guard: a free-running body that deadlocks (the exploration under the controlled scheduler is what decides
+	// deadlocks; this pass only looks for data races) must not hang the check
+	limit := 10 * time.Minute
+	err := run.Start()
+	if err == nil {
+		done := make(chan error, 1)
+		go func() { done <- run.Wait() }()
+		select {
+		case err = <-done:
+		case <-time.After(limit):
+			run.Process.Signal(syscall.SIGQUIT) // goroutine dump to stderr
+			select {
+			case <-done:
+			case <-time.After(10 * time.Second):
+				run.Process.Kill()
+				<-done
+			}
+			s := stderr.String()
+			if i := strings.Index(s, "SIGQUIT"); i >= 0 {
+				s = s[i:]
+			}
+			if len(s) > 3000 {
+				s = s[:3000]
+			}
+			rr.Err = fmt.Sprintf("race pass binary did not finish within %v (bodies parked: possible deadlock of the free-running code)\n%s", limit, s)
+			return rr
+		}
+	}
+	if err != nil {
 		s := stderr.String()
 		if len(s) > 4000 {
 			s = s[len(s)-4000:]
